@@ -174,7 +174,8 @@ def check_label_frames(prog: Program, res: Result) -> None:
                     binds = [b for b in walk_function(init.node) if isinstance(b, ast.Assign) and norm(b.targets[0]) == "self.labels"] if init is not None else []
                     if binds:   # how the class first obtains its label set decides whose frames it holds
                         first = min(binds, key=lambda b_: b_.lineno)
-                        private = isinstance(first.value, ast.Call) and norm(first.value.func) in ("copy.deepcopy", "deepcopy")
+                        fv = astq.expand_at(init.node, first.value, first)
+                        private = isinstance(fv, ast.Call) and norm(fv.func) in ("copy.deepcopy", "deepcopy")
                         break
             res.ob(R, private, fi.qualname, "the store into <frame>.instances hits a private deep copy of the labels",
                    f"`{short(st, 50)}` stores into a label frame that is shared with the caller (no deep copy of the label set was taken): constructing the dataset / reading a frame "
